@@ -1,0 +1,8 @@
+// +build verif
+
+package hash
+
+// VerifReset re-draws the process-global hash IV from pkg/rand.
+func VerifReset() {
+	hashIV = RandN32(1)[0]
+}
